@@ -71,6 +71,7 @@ type subscriber struct {
 	cancel    context.CancelFunc
 	w         *subWriter
 
+	unsubbing      bool // its own UnsubscribeSubscription call is in progress
 	subscribeBegin uint64
 	regDone        uint64 // async: AsyncResolveGraphQLSubscription returned
 	removalBegin   uint64 // first moment the subscriber was asked to leave / a failure was returned to the resolver
@@ -85,6 +86,28 @@ func (s *subscriber) markRemoval(seq uint64, why string) {
 	if s.removalBegin == 0 || seq < s.removalBegin {
 		s.removalBegin, s.removalWhy = seq, why
 	}
+}
+
+// otherRemoval: something other than the Unsubscribe* call named by why may have detached the
+// subscription already (its source ended or failed to start, the startup hook of a subscriber of
+// the same trigger failed, an earlier flush error, ...). That other path closes the completed
+// channel once the writes in flight are over; the Unsubscribe* call then finds nothing to do and
+// its return is not the subscription's completion signal.
+func (e *subEnv) otherRemoval(s *subscriber, why string) bool {
+	if !strings.HasPrefix(s.removalWhy, why) {
+		return true
+	}
+	for _, in := range e.instances {
+		if in.key == s.key && (in.termBegin != 0 || in.startFail) {
+			return true
+		}
+	}
+	for _, o := range e.subs {
+		if o != s && o.key == s.key && o.removalWhy == "startup hook failed" {
+			return true // if o created the trigger, its failure tears the whole trigger down
+		}
+	}
+	return false
 }
 
 type subWriter struct {
@@ -203,12 +226,14 @@ type subEnv struct {
 	res *resolve.Resolver
 	// unsubClients: first UnsubscribeClient call per connection id (sequence number)
 	unsubClients map[resolve.ConnectionID]uint64
-	faults       bool
-	instances    []*srcInstance
-	subs         []*subscriber
-	rep          *subReporter
-	shutdown     uint64 // resolver shutdown begun
-	hook         bool
+	// unsubClientRunning: UnsubscribeClient calls in progress per connection id
+	unsubClientRunning map[resolve.ConnectionID]int
+	faults             bool
+	instances          []*srcInstance
+	subs               []*subscriber
+	rep                *subReporter
+	shutdown           uint64 // resolver shutdown begun
+	hook               bool
 }
 
 // subSource is the stub SubscriptionDataSource.
@@ -577,8 +602,17 @@ func runSUB(r *core.Run) {
 					s.markRemoval(r.Sim.Tick(), "UnsubscribeSubscription")
 					r.Fault("unsubscribe")
 					r.Hist("s%d unsubscribe", i)
+					s.unsubbing = true
 					_ = e.res.UnsubscribeSubscription(s.id)
-					s.signalled = r.Sim.Tick()
+					s.unsubbing = false
+					teardown := e.otherRemoval(s, "UnsubscribeSubscription")
+					if e.unsubClientRunning[s.id.ConnectionID] == 0 && e.shutdown == 0 && !teardown {
+						s.signalled = r.Sim.Tick()
+					}
+					// else: an UnsubscribeClient of this connection, the resolver's shutdown or the teardown
+					// after the source ended / failed to start may be in progress and have detached the
+					// subscription already: this call found nothing to do,
+					// and its return says nothing about writes the other removal is still waiting for
 				case 3:
 					if s.regDone == 0 {
 						return
@@ -598,7 +632,12 @@ func runSUB(r *core.Run) {
 						e.unsubClients[s.id.ConnectionID] = now
 					}
 					r.Hist("s%d unsubscribe client %d", i, s.id.ConnectionID)
+					if e.unsubClientRunning == nil {
+						e.unsubClientRunning = map[resolve.ConnectionID]int{}
+					}
+					e.unsubClientRunning[s.id.ConnectionID]++
 					_ = e.res.UnsubscribeClient(s.id.ConnectionID)
+					e.unsubClientRunning[s.id.ConnectionID]--
 					end := r.Sim.Tick()
 					for _, o := range e.subs {
 						// a subscriber of this connection that registered while the call was in
@@ -609,7 +648,12 @@ func runSUB(r *core.Run) {
 					}
 					for _, o := range e.subs {
 						if o.async && o.id.ConnectionID == s.id.ConnectionID && o.regDone != 0 && o.regDone < now {
-							if o.signalled == 0 {
+							// a subscriber whose own UnsubscribeSubscription is in progress has been
+							// detached by that call already: UnsubscribeClient does not find it, and its
+							// completion is signalled by the return of its own call; likewise when another
+							// UnsubscribeClient of this connection (or the shutdown) is still in progress:
+							// that one detached the subscriptions and is waiting for their writes
+							if o.signalled == 0 && !o.unsubbing && e.unsubClientRunning[s.id.ConnectionID] == 0 && e.shutdown == 0 && !e.otherRemoval(o, "UnsubscribeClient") {
 								o.signalled = end
 							}
 						}
